@@ -1321,22 +1321,21 @@ func (gen *Generator) generateSyntaxQuoteHash(arg Sexp) error {
 	n := HashCountKeys(hash)
 	gen.AddInstruction(PushInstr{SexpMarker})
 	for i := 0; i < n; i++ {
-		// must reverse order here to preserve order on rebuild
-		key := hash.KeyOrder[(n-i)-1]
+		// keys and values go on the stack in key order; hashize rebuilds in stack order
+		key := hash.KeyOrder[i]
 		val, err := hash.HashGet(nil, key)
 		if err != nil {
 			return err
 		}
-		// value first, since value comes second on rebuild
 		gen.AddInstruction(PushInstr{SexpMarker})
-		if err := gen.GenerateSyntaxQuote([]Sexp{val}); err != nil {
+		if err := gen.GenerateSyntaxQuote([]Sexp{key}); err != nil {
 			return err
 		}
 		gen.AddInstruction(SquashInstr(0))
 		gen.AddInstruction(ExplodeInstr(0))
 
 		gen.AddInstruction(PushInstr{SexpMarker})
-		if err := gen.GenerateSyntaxQuote([]Sexp{key}); err != nil {
+		if err := gen.GenerateSyntaxQuote([]Sexp{val}); err != nil {
 			return err
 		}
 		gen.AddInstruction(SquashInstr(0))
